@@ -175,11 +175,21 @@ class RangeFacet:
                 return TOPI
             a = self.of(pos[0])
             if s in ("sin", "cos"):
-                if s == "sin" and a.within(0, math.pi):
-                    return Iv(0.0, 1.0)
-                if s == "cos" and a.within(-math.pi / 2, math.pi / 2):
-                    return Iv(0.0, 1.0)
-                return Iv(-1.0, 1.0)
+                if abs(a.lo) == INF or abs(a.hi) == INF or a.hi - a.lo >= 2 * math.pi:
+                    return Iv(-1.0, 1.0)
+                f = math.sin if s == "sin" else math.cos
+                vals = [f(a.lo), f(a.hi)]
+                # critical points k*pi/2 inside the interval
+                k0 = math.ceil(a.lo / (math.pi / 2))
+                k = k0
+                while k * (math.pi / 2) <= a.hi:
+                    vals.append(round(f(k * (math.pi / 2))))
+                    k += 1
+                lo, hi = min(vals), max(vals)
+                # snap values that are exact at the canonical end points (pi/3 multiples)
+                snap = lambda v: min((-1.0, -0.5, 0.0, 0.5, 1.0), key=lambda t: abs(t - v)) \
+                    if min(abs(v - t) for t in (-1.0, -0.5, 0.0, 0.5, 1.0)) < 1e-12 else v
+                return Iv(snap(lo), snap(hi))
             if s == "arcsin":
                 return Iv(-math.pi / 2, math.pi / 2)
             if s == "arccos":
